@@ -506,6 +506,39 @@ def _after_failure(unit: Unit, ob: Obl, ctx: Ctx, st: State, goal, r: OblResult,
     spec = {"property": unit.prop, "obligation": r.name, "unit": unit.name, "func": unit.native_func or unit.func.replace(":", ":", 1),
             "names": unit.names if isinstance(unit.names, dict) else {}, "post": post, "when": ob.when,
             "allowed_raises": unit.allowed_raises, "verifier": {"backend": r.backend, "detail": r.detail}}
+    if ob.scenario is not None:
+        # structural obligation with a scenario script that drives the real engine into the consequence
+        script = os.path.join(os.path.dirname(os.path.dirname(__file__)), "replay", "scenarios", ob.scenario)
+        spec["scenario_cmd"] = f"/venv/bin/python replay/scenarios/{ob.scenario}"
+        spec["model"] = _model_text(r.model)
+        cache = os.path.join(REPLAY_DIR, f".scenario_{os.environ.get('PYVC_RUN_ID', '0')}_{ob.scenario}.json")
+        if os.path.exists(cache):
+            try:
+                c = json.load(open(cache))
+                out, verdict = c["out"], c["verdict"]
+            except Exception:
+                out, verdict = "", None
+        else:
+            verdict = None
+        if verdict is None:
+            try:
+                p = subprocess.run(["/venv/bin/python", script], capture_output=True, text=True, timeout=300, env=dict(os.environ))
+                out = (p.stdout or "").strip()[-800:] or (p.stderr or "").strip()[-800:]
+                verdict = {0: "none", 1: "violates"}.get(p.returncode, "error")
+            except subprocess.TimeoutExpired:
+                out, verdict = "scenario timed out", "error"
+            try:
+                with open(cache, "w") as fh:
+                    json.dump({"out": out, "verdict": verdict}, fh)
+            except OSError:
+                pass
+        spec["scenario"] = {"verdict": verdict, "output": out}
+        with open(fname, "w") as fh:
+            json.dump(spec, fh, indent=1, default=str)
+        r.replay, r.status, r.model = fname, "violation", None
+        r.replay_verdict = "violates" if verdict == "violates" else "none"
+        r.detail = out
+        return
     replayable = unit.replayable and r.model is not None and unit.run is None and (post is not None or ob.check is None)
     if replayable:
         cur = ctx.I.st
